@@ -166,6 +166,9 @@ pub fn styled_name(style: u8, stem: &str, k: u32) -> String {
     match style {
         1 => format!("{stem}{k}-ünïcödé-名前がとても長いファイルの名前é.json"),
         2 => format!("{stem}{k},part two.json"),
+        // a name that makes the whole path longer than 255 bytes (the name itself stays below
+        // the limit of a path component), two- and three-byte characters in turn
+        3 => format!("{stem}{k}-{}.json", "é名".repeat(47)),
         _ => format!("{stem}{k}.json"),
     }
 }
